@@ -151,3 +151,9 @@ add("C12", "translation_validation",
     "(own, inherited, in-lined constrained primitives), the schema must reject the SDK's document. A valid document with a mistyped value, a missing required property or a missing / unknown modelType "
     "at a symbolic position must be rejected as well.",
     "Exclusions of the property (descendants' tightenings of inherited list items, byte-array lengths) are excluded here, too. Corpus and bounds as C11.")
+
+add("C20", "model_checking",
+    "bounded symbolic execution (CrossHair/z3) of the docstring / documentation-comment wrappers of python, java, typescript, cpp and golang on a symbolic description text, against lexers of the target languages' comment and string syntax; path trees exhausted",
+    "Each wrapper through which description text reaches a generated file is executed on a symbolic Stripped text (all of Unicode, bounded length); a small lexer of the target language decides whether "
+    "the output is exactly one docstring / one comment block (no early close, no line outside the comment, no line splice); witnesses are replayed through compile(), g++ -fsyntax-only, node --check and javac.",
+    "Only the comment/docstring wrappers are decided, not whole generated files (C19 covers literals); C# XML documentation and the reST rendering before the wrappers are outside. One open known finding (C++ line splice).")
